@@ -111,19 +111,36 @@ def _num(v, default):
         return default
 
 
-def real(name):
+def _sample_real(lo, hi):
+    if lo is None and hi is None:
+        return S.rng.uniform(-2, 2)
+    if lo is None:
+        return hi - abs(S.rng.gauss(0, 2))
+    if hi is None:
+        return lo + abs(S.rng.gauss(0, 2))
+    r = S.rng.random()
+    return lo if r < 0.05 else hi if r < 0.1 else S.rng.uniform(lo, hi)
+
+
+def real(name, lo=None, hi=None):
     if name not in S.inputs:
         S.missing.append(name)
-    v = float(_num(S.inputs.get(name), S.rng.uniform(-2, 2)))
+    v = float(_num(S.inputs.get(name), _sample_real(lo, hi)))
     S.drawn[name] = v
+    if (lo is not None and v < lo) or (hi is not None and v > hi):
+        raise AssumptionFailed("%s outside its range" % name)
     return v
 
 
-def integer(name):
+def integer(name, lo=None, hi=None):
     if name not in S.inputs:
         S.missing.append(name)
-    v = int(_num(S.inputs.get(name), S.rng.randint(0, 3)))
+    a = 0 if lo is None else int(lo)
+    b = a + 3 if hi is None else int(hi)
+    v = int(_num(S.inputs.get(name), S.rng.randint(a, max(a, b))))
     S.drawn[name] = v
+    if (lo is not None and v < lo) or (hi is not None and v > hi):
+        raise AssumptionFailed("%s outside its range" % name)
     return v
 
 
